@@ -35,10 +35,23 @@ def main() -> int:
                     if isinstance(s.get("type"), list):
                         ts = [t for t in s["type"] if t != "null"]
                         s["type"] = ts[0] if len(ts) == 1 else ts
+                    nn = [v for v in s["enum"] if v is not None]
+                    if nn and "default" not in s and r.random() < 0.6:
+                        s["default"] = r.choice(nn)  # annotations stay at the outer level in both notations
                 return s
             d = rewrite.map_schemas(d, strip)
             feats = feats | {"enum_null:plain"}
         bases.append((f"random:{i}", d, feats))
+    # enums listing null with a default / description / example of their own, as property and as parameter
+    for vi, vals in enumerate([["red", "green"], [1, 2, 3], ["only"]]):
+        t = "string" if isinstance(vals[0], str) else "integer"
+        e = {"type": t, "enum": vals + [None], "default": vals[-1], "description": "colour or nothing"}
+        d = docs.base_doc("3.0.3", "Enum Null Default")
+        d["components"]["schemas"] = {"Paint": {"type": "object", "properties": {"colour": docs.clone(e), "second": dict(docs.clone(e), default=vals[0]), "plain": {"type": t, "enum": vals + [None]}}, "required": ["plain"]},
+                                      "Shade": docs.clone(e)}
+        d["paths"] = {"/paint": {"get": {"operationId": "list_paint", "parameters": [{"name": "colour", "in": "query", "schema": docs.clone(e)}, {"name": "shade", "in": "query", "schema": {"$ref": "#/components/schemas/Shade"}}],
+                                         "responses": {"200": {"description": "ok", "content": {"application/json": {"schema": {"$ref": "#/components/schemas/Paint"}}}}}}}}
+        bases.append((f"enum_null_default:{vi}", d, {"enum_null:plain", "enum_null_default"}))
     # documents with a nullable composing allOf carrying sibling annotations (3.0 spelling)
     for i in range(12 if quick else 120):
         d, feats = docs.random_doc(("C17n", seed(), i), version="3.0.3", n_ops=2)
@@ -64,6 +77,17 @@ def main() -> int:
         add("url_json", d, 1, source="url", url_ctype="application/json")
         add("url_json_charset", d, 1, source="url", url_ctype="application/json; charset=utf-8")
         add("url_yaml", d, 1, source="url", url_ctype="application/yaml", fmt="yaml")
+        if bi % 3 == 0:
+            # characters outside the BMP: json.dumps spells them as surrogate-pair escapes, which only a JSON parser accepts
+            da = docs.clone(d)
+            da["info"]["description"] = "launch \U0001F680 café"
+            da["components"]["schemas"]["ZqAstral"] = {"type": "string", "enum": ["go \U0001F680", "stay"], "description": "\U0001D11E clef"}
+            add("base_astral", da, 1)
+            add("astral_url_json", da, 1, source="url", url_ctype="application/json")
+            add("astral_url_json_charset", da, 1, source="url", url_ctype="application/json; charset=utf-8")
+            add("astral_url_json_upper", da, 1, source="url", url_ctype="Application/JSON;charset=UTF-8")
+            add("astral_json_raw", da, 1, ensure_ascii=False)
+            add("astral_yaml", da, 1, fmt="yaml")
         if bi % 6 == 0:
             dn = docs.clone(d)
             dn["info"]["description"] = "très grand café"
@@ -90,13 +114,19 @@ def main() -> int:
         bi, kind, n = info[j["id"]]
         if kind == "base" and not res.get("_error"):
             base[bi] = res
+        if kind == "base_astral" and not res.get("_error"):
+            enc_base[(bi, "astral")] = res
         if kind.startswith("base_enc_") and not res.get("_error"):
             enc_base[(bi, kind[len("base_enc_"):])] = res
     for j, res in zip(jobs, rs):
         bi, kind, n = info[j["id"]]
-        if kind == "base" or kind.startswith("base_enc_") or bi not in base or res.get("_error"):
+        if kind in ("base", "base_astral") or kind.startswith("base_enc_") or bi not in base or res.get("_error"):
             continue
         b = base[bi]
+        if kind.startswith("astral_"):
+            b = enc_base.get((bi, "astral"))
+            if b is None:
+                continue
         if "_enc_" in kind:
             b = enc_base.get((bi, kind.split("_enc_")[1]))
             if b is None:
@@ -114,7 +144,7 @@ def main() -> int:
         db = sorted((d["level"], d["header"], d["detail"]) for d in (b.get("diags") or []))
         dv = sorted((d["level"], d["header"], d["detail"]) for d in (res.get("diags") or []))
         if len(db) != len(dv):
-            extra = [x for x in dv if x not in db]
+            extra = [x for x in dv if x not in db] or [x for x in db if x not in dv]
             comp_keys = {"/components/schemas/" + k for k in bases[bi][1]["components"]["schemas"]}
             reproc = any(x[1].startswith("\nUnable to process schema ") and x[1].strip()[len("Unable to process schema "):].rstrip(":") not in comp_keys for x in extra)
             vd.violation(f"{k0}:diagnostics_differ" + (":model_copy_reprocessed" if reproc else ""), f"{bases[bi][0]}: {len(db)} vs {len(dv)} diagnostics: {extra[:1] or [x for x in db if x not in dv][:1]}", w)
